@@ -346,6 +346,10 @@ def main(argv=None):
 
     findings = load_findings()
     open_f = {(x['property'], x['obligation']): x for x in findings if x.get('status') == 'open'}
+    # the `#observed` twin of a listed cell only says "the defect still has its recorded shape"; when the cell itself is
+    # discharged (the defect has been repaired) the twin's failure means nothing
+    failed_now = set(f.oid for f in mine if f.kind == 'semantic')
+    mine = [f for f in mine if not (f.oid and f.oid.endswith('#observed') and f.oid[:-len('#observed')] not in failed_now)]
     violations, known_hit, undecided = [], [], []
     if deductive_ok:
         seen = set()
